@@ -1,6 +1,8 @@
 package sio
 
 import (
+	"github.com/karagenc/socket.io-go/parser"
+	"reflect"
 	"time"
 
 	eio "github.com/karagenc/socket.io-go/engine.io"
@@ -230,3 +232,54 @@ func verifH_C15_offline_ack() {
 //verif:unwind 16
 //verif:rand concrete
 func verifH_C15_offline_onconnect() { verifOnConnectOrderBody() }
+
+// C15_retry_queue: the retry queue (ClientSocketConfig.Retries > 0), which none of the other harnesses configures: "a" was
+// sent but not yet acknowledged when the connection dropped, "b" is emitted during the outage, then the client
+// reconnects (real onConnect) before the ack timeout of the lost transmission runs out. "a" is transmitted again right
+// after the reconnection - it does not wait for the stale timeout - and once it is acknowledged "b" follows: every
+// event emitted before and during the outage is delivered, in order.
+//
+//verif:unwind 16
+//verif:rand concrete
+//verif:sleep gate
+func verifH_C15_retry_queue() {
+	var log []verifEncoded
+	_, cl := verifClientWorld(verifRecParser{log: &log}, "/")
+	s := cl["/"]
+	s.config.Retries = 2
+	s.config.AckTimeout = time.Hour
+	count := func(name string) (n int, lastID *uint64) {
+		for _, e := range log {
+			if args, ok := e.v.(*[]any); ok && e.typ == parser.PacketTypeEvent && len(*args) > 0 && (*args)[0] == name {
+				n++
+				lastID = e.id
+			}
+		}
+		return
+	}
+	s.Emit("a")
+	verifWaitQuiescent()
+	n, _ := count("a")
+	verifAssert(n == 1, "the head of the retry queue is sent at once")
+	s.onClose(ReasonTransportClose) // the transmission is lost with the connection: no acknowledgement will come
+	s.Emit("b")
+	verifWaitQuiescent()
+	nb, _ := count("b")
+	verifAssert(nb == 0, "an event emitted during the outage waits behind the unacknowledged head")
+	info := &sidInfo{SID: "sid2"}
+	s.onConnect(&parser.PacketHeader{Type: parser.PacketTypeConnect, Namespace: "/"}, func(types ...reflect.Type) ([]reflect.Value, error) {
+		return []reflect.Value{reflect.ValueOf(info)}, nil
+	})
+	verifWaitQuiescent()
+	n, id := count("a")
+	verifAssert(n == 2, "after the reconnection the unacknowledged event is transmitted again at once, without waiting for the stale ack timeout")
+	if n != 2 || id == nil {
+		return
+	}
+	rid := *id
+	s.onAck(&parser.PacketHeader{Type: parser.PacketTypeAck, Namespace: "/", ID: &rid}, verifReplyDecode(""))
+	verifWaitQuiescent()
+	nb, _ = count("b")
+	verifAssert(nb == 1, "once it is acknowledged the event emitted during the outage follows")
+	verifReach("end")
+}
